@@ -119,6 +119,8 @@ def do_read(obj, k):
             except OSError:
                 pass
             return "nofd"
+        if k[0] == "other":
+            return obj.b[k[1]]      # a read through the second object that was opened before the fork (props/c18.Pair)
         if k[0] == "iter":
             import itertools
             return list(itertools.islice(iter(obj), k[1]))
